@@ -363,6 +363,54 @@ class Extractor:
         self.rule(rw.get('rule', 'R?'))
         return tokenize(text)
 
+    # ---- R6: RECV.find(|PAT| BODY) -> first-match loop that calls the (kept) closure
+    def desugar_find(self, toks, fd, fnpath):
+        """the n-th `.find(` of the function (source order).  The closure BODY is kept verbatim inside a closure whose
+        typed header (+ ensures) comes from the spec; the search becomes
+            { let mut V = RECV; let V_p = HEADER { BODY }; let mut V_res = None;
+              loop { match V.next() { Some(v_) => { if V_p(&v_) { V_res = Some(v_); break; } } None => break, } } V_res }"""
+        sg = rsx.sig(toks)
+        hits = [i for i in range(len(sg) - 2) if toks[sg[i]].text == '.' and toks[sg[i + 1]].text == 'find' and toks[sg[i + 2]].text == '(']
+        n = fd['n']
+        if n < 1 or n > len(hits):
+            raise ExtractError('%s: .find( #%d does not exist (function has %d)' % (fnpath, n, len(hits)))
+        i = hits[n - 1]
+        open_idx = sg[i + 2]
+        close_idx = match_close(toks, open_idx)
+        # receiver: postfix chain to the left of `.find`
+        j = i - 1
+        depth = 0
+        while j >= 0:
+            t = toks[sg[j]]
+            if t.kind == 'punct' and t.text in rsx.CLOSE: depth += 1
+            elif t.kind == 'punct' and t.text in rsx.OPEN:
+                if depth == 0: break
+                depth -= 1
+            elif depth == 0:
+                if t.kind in ('ident', 'lifetime') and t.text not in ('let', 'match', 'if', 'return', 'in', 'else', 'mut'): pass
+                elif t.kind == 'punct' and t.text in ('.', '::', '?'): pass
+                else: break
+            j -= 1
+        recv_lo = sg[j + 1]
+        recv = rsx.text_of(toks, recv_lo, sg[i]).strip()
+        inner = [k for k in range(open_idx + 1, close_idx) if toks[k].kind not in ('ws', 'comment')]
+        if not inner or toks[inner[0]].text != '|':
+            raise ExtractError('%s: .find( #%d: argument is not a closure literal' % (fnpath, n))
+        # closure params end at the second '|'
+        k2 = None
+        for k in inner[1:]:
+            if toks[k].text == '|': k2 = k; break
+        if k2 is None: raise ExtractError('%s: .find( #%d: malformed closure' % (fnpath, n))
+        body = rsx.text_of(toks, k2 + 1, close_idx).strip()
+        if not body.startswith('{'): body = '{ ' + body + ' }'
+        v = fd.get('var', 'fit%d' % n)
+        new = ('{ let mut %s = %s; let %s_p = %s %s; let mut %s_res = None; '
+               'loop { match %s.next() { Some(v_) => { if %s_p(&v_) { %s_res = Some(v_); break; } } None => break, } } %s_res }'
+               % (v, recv, v, fd['closure_header'], body, v, v, v, v, v))
+        text = rsx.text_of(toks, 0, recv_lo) + new + rsx.text_of(toks, close_idx + 1, len(toks))
+        self.rule('R6')
+        return tokenize(text)
+
     # ---- R4: for -> loop/match
     def desugar_for(self, toks, body_lo, body_hi, loop_specs, fnpath):
         """rewrite the `for` loops named in loop_specs (n -> spec with 'desugar').  Returns new tokens.
@@ -443,6 +491,8 @@ class Extractor:
         ftoks = self.apply_shims(ftoks)
         for rw in (fnspec or {}).get('rewrite', []):
             ftoks = self.apply_rewrite(ftoks, rw, path)
+        for fd in sorted((fnspec or {}).get('find', []), key=lambda x: -x['n']):
+            ftoks = self.desugar_find(ftoks, fd, path)
         items = split_items(ftoks, 0, len(ftoks))
         if len(items) != 1 or items[0].kind != 'fn':
             raise ExtractError('%s: did not re-parse as one fn after rewriting' % path)
